@@ -22,3 +22,4 @@ def run(ck):
     region.r7_13_or_trick_exactness(ck, P, 'C06-R9')
     region.r5_11_constructed_rectangle_validated(ck, P, 'C06-R10')   # a rectangle without points stored as a region is not canonical
     region.r7_14_running_extremes_independent(ck, P, 'C06-R11')      # extents enclose the rectangles
+    region.r6_12_clamped_boxes_revalidated(ck, P)
